@@ -258,6 +258,9 @@ def dispatch(E, c, tc, args):
         if isinstance(d, VSeq) and isinstance(src, VSeq):
             d.items += [clone(deref(E, x)) if isinstance(x, VRef) else x for x in src.items[getattr(src, "pos", 0):]]
             return UNIT
+        if isinstance(d, VSeq) and isinstance(src, VOpaque) and re.match(r"^<std::vec::Vec<u8> as", c):
+            d.items.append(VStruct("#chunk", [src]))          # an opaque run of bytes appended as a whole
+            return UNIT
     if (re.search(r"<impl \[.*\]>::(get_mut|get)::<usize>$", c, re.S) or re.match(r"^std::vec::Vec::<.*>::(get_mut|get)::<usize>$", c, re.S)) and len(args) == 2:
         r = ref_chain(E, args[0])
         d = E.read_ref(r)
